@@ -121,6 +121,9 @@ class _TReal(T):
         raise TypeErrorSym('not a number: %r' % (v,))
 
 
+box_any = None      # installed by models.py (containers as constructor terms)
+
+
 class _TVal(T):
     name = 'Val'
 
@@ -133,6 +136,8 @@ class _TVal(T):
     def unwrap(self, v):
         if isinstance(v, SVal):
             return v.t
+        if isinstance(v, (list, tuple, dict)) and box_any is not None:
+            return box_any(v)
         return box(v)
 
 
@@ -285,11 +290,28 @@ class SSeq(Sym):
 
 class SIter(Sym):
     """A one-shot iterator: the underlying sequence and how many elements
-    have been pulled so far (mutable: `pos` advances)."""
+    have been pulled so far (mutable: `pos` advances). A lazy view over
+    another iterator (islice) forwards its pulls to the parent."""
 
-    def __init__(self, seq, pos=None):
+    def __init__(self, seq, pos=None, parent=None, lo=None):
         self.seq = seq
-        self.pos = z3.IntVal(0) if pos is None else pos
+        self._pos = z3.IntVal(0) if pos is None else pos
+        self.parent = parent
+        self.parent_base = parent.pos if parent is not None else None
+        self.lo = lo if lo is not None else z3.IntVal(0)
+
+    @property
+    def pos(self):
+        return self._pos
+
+    @pos.setter
+    def pos(self, new):
+        self._pos = new
+        if self.parent is not None:
+            # pulling the k-th element of the view pulls lo + k elements of
+            # the parent (nothing while the view is untouched)
+            self.parent.pos = z3.simplify(z3.If(
+                new > 0, self.parent_base + self.lo + new, self.parent_base))
 
     def remaining(self):
         return seq_slice(self.seq, self.pos, None)
@@ -639,6 +661,8 @@ def as_bool_term(x):
 
 def equal(a, b):
     """a == b as z3 Bool / Python bool (Python semantics on modelled kinds)."""
+    if isinstance(a, SFunc) or isinstance(b, SFunc):
+        return a is b
     if not is_sym(a) and not is_sym(b) and not isinstance(a, Opaque) \
             and not isinstance(b, Opaque):
         return a == b
